@@ -243,6 +243,10 @@ impl RemoteStateActor {
         shutdown_token: CancellationToken,
     ) -> (EndpointId, Vec<RemoteStateMessage>) {
         trace!("actor started");
+        #[cfg(iroh_verif)]
+        iroh_base::verif::event("remote_actor.start", || {
+            format!("{} leftover={}", self.state.endpoint_id, initial_msgs.len())
+        });
         for msg in initial_msgs {
             self.handle_message(msg).await;
         }
@@ -339,6 +343,10 @@ impl RemoteStateActor {
         inbox.recv_many(&mut leftover_msgs, inbox.len()).await;
 
         trace!("actor terminating");
+        #[cfg(iroh_verif)]
+        iroh_base::verif::event("remote_actor.stop", || {
+            format!("{} leftover={}", self.state.endpoint_id, leftover_msgs.len())
+        });
         (self.state.endpoint_id, leftover_msgs)
     }
 
@@ -355,6 +363,17 @@ impl RemoteStateActor {
     #[instrument(skip(self))]
     async fn handle_message(&mut self, msg: RemoteStateMessage) {
         // trace!("handling message");
+        #[cfg(iroh_verif)]
+        iroh_base::verif::event("remote_actor.handle", || {
+            let what = match &msg {
+                RemoteStateMessage::ResolveRemote(addrs, _) => format!("resolve {addrs:?}"),
+                RemoteStateMessage::RemoteInfo(_) => "remote-info".to_string(),
+                RemoteStateMessage::NetworkChange { is_major } => format!("network-change {is_major}"),
+                RemoteStateMessage::AddConnection(..) => "add-connection".to_string(),
+                RemoteStateMessage::SendDatagram(..) => "send-datagram".to_string(),
+            };
+            format!("{} {what}", self.state.endpoint_id)
+        });
         match msg {
             RemoteStateMessage::SendDatagram(sender, transmit) => {
                 self.state.handle_msg_send_datagram(sender, transmit).await;
